@@ -49,9 +49,7 @@ theorem setAllowed_sorted {x : Allowed} : ∀ {l : List Allowed},
     unfold setAllowed upsertBy
     split
     · rename_i hlt
-      have hlt' : (x.bidder : Nat) < z.bidder := by
-        have : ((x.bidder : Nat) : Int) < ((z.bidder : Nat) : Int) := hlt
-        omega
+      have hlt' : (x.bidder : Nat) < z.bidder := Int.ofNat_lt.mp hlt
       rw [List.map_cons, List.pairwise_cons]
       refine ⟨?_, ?_⟩
       · intro b hb
@@ -63,9 +61,7 @@ theorem setAllowed_sorted {x : Allowed} : ∀ {l : List Allowed},
         exact ⟨hz, hs⟩
     · split
       · rename_i _ heq
-        have heq' : (x.bidder : Nat) = z.bidder := by
-          have : ((x.bidder : Nat) : Int) = ((z.bidder : Nat) : Int) := heq
-          omega
+        have heq' : (x.bidder : Nat) = z.bidder := Int.ofNat_inj.mp heq
         rw [List.map_cons, List.pairwise_cons]
         refine ⟨?_, hs⟩
         intro b hb
@@ -74,9 +70,9 @@ theorem setAllowed_sorted {x : Allowed} : ∀ {l : List Allowed},
         exact hz b hb
       · rename_i hnlt hne
         have hgt : (z.bidder : Nat) < x.bidder := by
-          have h1 : ¬ ((x.bidder : Nat) : Int) < ((z.bidder : Nat) : Int) := hnlt
-          have h2 : ¬ ((x.bidder : Nat) : Int) = ((z.bidder : Nat) : Int) := hne
-          omega
+          have h1 : ¬ (x.bidder : Nat) < z.bidder := fun h => hnlt (Int.ofNat_lt.mpr h)
+          have h2 : ¬ (x.bidder : Nat) = z.bidder := fun h => hne (congrArg Int.ofNat h)
+          exact Nat.lt_of_le_of_ne (Nat.le_of_not_lt h1) (fun h => h2 h.symm)
         rw [List.map_cons, List.pairwise_cons]
         refine ⟨?_, ih hs⟩
         intro b hb
@@ -98,9 +94,7 @@ theorem setAllowed_keys {x : Allowed} : ∀ {l : List Allowed} {w : Allowed},
     · exact ⟨w, List.mem_cons_of_mem _ hw, rfl⟩
     · split
       · rename_i _ heq
-        have heq' : (x.bidder : Nat) = y.bidder := by
-          have : ((x.bidder : Nat) : Int) = ((y.bidder : Nat) : Int) := heq
-          omega
+        have heq' : (x.bidder : Nat) = y.bidder := Int.ofNat_inj.mp heq
         rcases List.mem_cons.mp hw with rfl | hw
         · exact ⟨x, List.mem_cons_self .., heq'⟩
         · exact ⟨w, List.mem_cons_of_mem _ hw, rfl⟩
